@@ -9,7 +9,7 @@ from ..fieldloop import TYPE_NAMES, META, VALUE, FIELD_NAME, interp_for, type_bi
 from ..numeric import INF, interval
 from ..refsrc import (Reference, SPEC_PACKABLE, SPEC_SIGNED_VARINT, SPEC_STRUCT_SIZE, SPEC_ZIGZAG)
 from ..src import AnalysisError, M_INIT
-from ..sym import A, C, N, OP, Sym, contains, dotted, show, walk
+from ..sym import A, C, N, OP, Sym, contains, dotted, show, simplify, walk
 
 SCALARS = [t for t in TYPE_NAMES]
 WIDTH = {1: 8, 5: 4}
@@ -32,7 +32,7 @@ def _inline_pack_fmt(mod) -> Dict[str, Any]:
 
 def _has_arith_on(s: Sym, leaf: Sym) -> bool:
     for t in walk(s):
-        if t[0] == "op" and t[1] in ("<<", ">>", "^", "&", "|", "+", "-", "~", "neg", "*") and contains(t, leaf):
+        if t[0] == "op" and t[1] in ("<<", ">>", "^", "&", "|", "+", "-", "~", "neg", "*", "%", "//") and contains(t, leaf):
             return True
         if t[0] == "ife" and contains(t, leaf):
             return True
@@ -88,6 +88,8 @@ def classify_dec(ret: Optional[Sym], value: Sym) -> Tuple[str, Any]:
             return "submessage-conv", base
     if ret[0] == "a" and ret[1][0] == "call" and dotted(ret[1][1]).split(".")[-1] == "parse":
         return "submessage-attr", ret[2]
+    if ret[0] == "item" and ret[2] == 0 and ret[1][0] == "call" and dotted(ret[1][1]) == "struct.unpack":
+        ret = ("sub", ret[1], C(0))         # (x,) = struct.unpack(..) is struct.unpack(..)[0]
     if ret[0] == "sub" and ret[1][0] == "call" and dotted(ret[1][1]) == "struct.unpack" and ret[2] == C(0):
         c = ret[1]
         if len(c[2]) == 2 and c[2][1] == value:
@@ -479,6 +481,14 @@ def _refinements(valuation: Dict[Sym, bool]) -> Dict[Sym, Tuple[float, float]]:
                 out[b] = (a[1] + 1, INF) if v else (-INF, a[1])
         if k[0] == "op" and k[1] == "==" and len(k) == 4 and k[3][0] == "c" and isinstance(k[3][1], int) and v:
             out[k[2]] = (k[3][1], k[3][1])
+        # truthiness of `X >> j` (X non-negative): set <=> X >= 2**j
+        if k[0] == "op" and k[1] == ">>" and len(k) == 4 and k[3][0] == "c" and isinstance(k[3][1], int) and k[3][1] >= 0 and k[2][0] != "c":
+            out[k[2]] = (1 << k[3][1], INF) if v else (0, (1 << k[3][1]) - 1)
+        # truthiness of `X & 2**j` for X already masked to j+1 bits (X & (2**(j+1) - 1)): set <=> X >= 2**j
+        if k[0] == "op" and k[1] == "&" and len(k) == 4:
+            for x, c in ((k[2], k[3]), (k[3], k[2])):
+                if c[0] == "c" and isinstance(c[1], int) and c[1] > 0 and c[1] & (c[1] - 1) == 0 and x[0] == "op" and x[1] == "&" and C(2 * c[1] - 1) in x[2:]:
+                    out[x] = (c[1], 2 * c[1] - 1) if v else (0, c[1] - 1)
     return out
 
 
@@ -1169,6 +1179,31 @@ def rule_W4(ctx) -> None:
 # Z1 - zig-zag arithmetic against its linear specification
 
 
+def _resolve_parity(term: Sym, v: Sym, p: int) -> Sym:
+    """conditional expressions that test the parity of v (`v & 1`, `v % 2`, compared with 0 / 1, negated) resolved for
+    v of parity p"""
+    def truth(c: Sym):
+        if c in (OP("&", v, C(1)), OP("&", C(1), v), OP("%", v, C(2))):
+            return bool(p)
+        if c[0] == "op" and c[1] in ("not",):
+            r = truth(c[2])
+            return None if r is None else not r
+        if c[0] == "op" and c[1] == "truth":
+            return truth(c[2])
+        if c[0] == "op" and c[1] == "==" and len(c) == 4 and c[3][0] == "c" and c[3][1] in (0, 1) and c[2] in (OP("&", v, C(1)), OP("&", C(1), v), OP("%", v, C(2))):
+            return p == c[3][1]
+        return None
+
+    def rec(t: Sym) -> Sym:
+        if t[0] == "ife":
+            r = truth(simplify(t[1]))
+            if r is not None:
+                return rec(t[2] if r else t[3])
+        return t
+
+    return rec(term)
+
+
 def rule_Z1(ctx, rule: str = "Z1") -> None:
     """encoder: enc(v) = 2v for v >= 0 and -2v-1 for v < 0 over the type's range;
     decoder: dec(2k) = k and dec(2k+1) = -k-1.  Decided with linear normal forms per case and intervals."""
@@ -1224,7 +1259,7 @@ def rule_Z1(ctx, rule: str = "Z1") -> None:
         kk = N("$k")
         res = []
         for p, want in ((0, (1, 0)), (1, (-1, -1))):
-            sub = subst(term, lambda s_: OP("+", OP("*", C(2), kk), C(p)) if s_ == m.dvalue else None)
+            sub = subst(_resolve_parity(term, m.dvalue, p), lambda s_: OP("+", OP("*", C(2), kk), C(p)) if s_ == m.dvalue else None)
             res.append((lin(sub, kk, (0, 2 ** (bits - 1) - 1)), want))
         if all(g == w for g, w in res):
             ctx.proved(rule, f"zigzag-decode[{t}]", locd, show(term))
